@@ -34,6 +34,7 @@ EXPLANATION = (
     'maintains total_time with the same operator/operand (+=, *=, min-clip, max-reduction), and '
     'adjust_notesequence_times raises for reversed/negative times before the note is emitted.  '
     'NOT decided: value facts such as "no note ends before it starts" in general.')
+EXPLANATION += (' ' + 'PAIR/steps-total-order (shared with C01): total_quantized_steps is assigned before and never after _quantize_notes in both quantize entry points.')
 TRUSTED = [
     'protobuf (upb) API model: CopyFrom/MergeFrom/extend/append/add copy their argument; deepcopy returns a fresh message',
     'pure-library table (math, numpy, logging, itertools, operator, ... do not mutate or retain messages)',
